@@ -780,6 +780,63 @@ func (h *c08H) respond(p *c08Proposal, nd *vfdNode) {
 	}
 }
 
+// racedAnswer: a participant's answer to the proposal (accept / join) races with the leader's abort of it. The
+// command is held between its read of the current record and whatever it does next (store tap, bounded); the leader
+// then aborts for real, so its abort packet arrives at the node meanwhile. Whatever order the node serves them in,
+// every write must still be a legal edge from the record it replaces (the per-write oracle does the judging).
+func (h *c08H) racedAnswer(p *c08Proposal, nd *vfdNode) bool {
+	v := h.view(nd)
+	if nd == p.leader || nd.tap == nil || v.cur == nil || v.cur.State != Proposed || v.cur.Epoch != p.epoch {
+		return false
+	}
+	h.net.quiesce(1500 * time.Millisecond)
+	park := &vfdPark{Parked: make(chan struct{}), Release: make(chan struct{}), Max: 400 * time.Millisecond}
+	isJoiner := c06In(p.joining, nd)
+	gf := h.groupFile()
+	if p.epoch == 1 {
+		gf = nil
+	}
+	done := make(chan error, 1)
+	go func() {
+		park.Gid = vfdGid()
+		nd.tap.setPark(park)
+		if isJoiner {
+			done <- nd.cmdJoin(gf)
+		} else {
+			done <- nd.cmdAccept()
+		}
+	}()
+	select {
+	case <-park.Parked:
+	case <-time.After(3 * time.Second):
+		nd.tap.setPark(nil)
+		h.run.Count("raced_answers_that_never_read_the_record", 1)
+	}
+	errAbort := p.leader.cmdAbort()
+	close(park.Release)
+	var errCmd error
+	select {
+	case errCmd = <-done:
+	case <-time.After(10 * time.Second):
+		h.run.Inconclusive(fmt.Sprintf("case %d: an answer racing the leader's abort did not return", h.c.Index))
+	}
+	h.net.quiesce(1500 * time.Millisecond)
+	h.mu.Lock()
+	kind := "cmd-accept"
+	if isJoiner {
+		kind = "cmd-join"
+	}
+	for _, st := range []c08Step{{Kind: kind, Class: "racing-the-leaders-abort", Actor: nd.addr, Target: nd.addr, OK: errCmd == nil},
+		{Kind: "cmd-abort", Class: "leader-racing-an-answer", Actor: p.leader.addr, Target: p.leader.addr, OK: errAbort == nil}} {
+		st.I = len(h.steps)
+		h.steps = append(h.steps, st)
+	}
+	h.mu.Unlock()
+	h.run.Count("answers_raced_with_the_leaders_abort", 1)
+	h.run.Seen("raced_answer_outcomes", fmt.Sprintf("%s/answer-ok=%v/final=%s", kind, errCmd == nil, c08Desc(h.view(nd))))
+	return true
+}
+
 // execute: the leader starts the real DKG; the harness then waits for the outcome on every participant.
 func (h *c08H) execute(p *c08Proposal, drop bool) {
 	h.net.setDropBundles(drop)
@@ -1334,13 +1391,21 @@ func (h *c08H) drive() {
 			continue
 		}
 		// answers, interleaved with noise
+		raced := false
 		for _, nd := range vfdShuffled(h.rng, p.participants()) {
+			if !raced && h.rng.Chance(12) && h.racedAnswer(p, nd) {
+				raced = true
+				break
+			}
 			if h.rng.Chance(88) {
 				h.respond(p, nd)
 			}
 			if h.rng.Chance(35) {
 				h.noise(p)
 			}
+		}
+		if raced {
+			continue // the leader has aborted this attempt
 		}
 		switch r := h.rng.Intn(100); {
 		case r < 35 || !h.c.Exec:
